@@ -1,7 +1,7 @@
 (* C13 — doc strings are opaque: verbatim content, closed only by their own delimiter. *)
 From Coq Require Import List Bool Arith NArith.
 Import ListNotations.
-Require Import Kinds PyStr Line Matcher Ast Builder Automaton Pipeline Table TableFacts Dialects DocStringFacts.
+Require Import Kinds PyStr Line Matcher Ast Builder Automaton Pipeline Table TableFacts Dialects DocStringFacts DocSepExact.
 
 (* the states reached by an opening delimiter test exactly [#DocStringSeparator; #Other], unguarded,
    and #Other loops with a single build *)
@@ -73,3 +73,31 @@ Print Assumptions C13_node.
 (* non-vacuity: the table has doc-string states *)
 Example C13_states_exist : docstring_states Table.table <> [].
 Proof. vm_compute. discriminate. Qed.
+
+(* When a line is a doc-string delimiter, exactly.  Outside a doc string: iff its trimmed text begins with three double quotes
+   or three backticks (the quotes are tried first; the trimmed rest of the line is the media type, the line's indentation is
+   what will be removed from the content lines).  Inside a doc string: iff it begins with the delimiter that opened it,
+   whatever follows -- so the other delimiter, a longer run of the other character, and the delimiter after other text are
+   content, and a closing line may carry trailing text. *)
+Theorem C13_opening_exact : forall m t l, tk_line t = Some l -> ms_sep m = None ->
+  yes (matcher dialects KDocStringSeparator m t) = line_startswith l DQ3 || line_startswith l BT3.
+Proof. exact docsep_opening_exact. Qed.
+Print Assumptions C13_opening_exact.
+
+Theorem C13_opening_result : forall m t l, tk_line t = Some l -> ms_sep m = None ->
+  forall t' m', matcher dialects KDocStringSeparator m t = MYes t' m' ->
+  exists sep, (sep = DQ3 /\ line_startswith l DQ3 = true \/ sep = BT3 /\ line_startswith l DQ3 = false /\ line_startswith l BT3 = true)
+    /\ ms_sep m' = Some sep /\ ms_indent m' = l_indent l /\ m_keyword t' = Some sep
+    /\ m_text t' = Some (rstrip_crlf (get_rest_trimmed l (length sep))).
+Proof. exact docsep_opening_result. Qed.
+Print Assumptions C13_opening_result.
+
+Theorem C13_closing_exact : forall m t l sep, tk_line t = Some l -> ms_sep m = Some sep ->
+  yes (matcher dialects KDocStringSeparator m t) = line_startswith l sep.
+Proof. exact docsep_closing_exact. Qed.
+Print Assumptions C13_closing_exact.
+
+Theorem C13_closing_result : forall m t l sep, tk_line t = Some l -> ms_sep m = Some sep ->
+  forall t' m', matcher dialects KDocStringSeparator m t = MYes t' m' -> ms_sep m' = None /\ ms_indent m' = 0%nat.
+Proof. exact docsep_closing_result. Qed.
+Print Assumptions C13_closing_result.
